@@ -1,6 +1,7 @@
 package main
 
 import (
+	"encoding/json"
 	"fmt"
 	"io"
 	"log"
@@ -36,7 +37,31 @@ func main() {
 	if tier == "replay" && len(os.Args) > 3 {
 		c.Tier = "quick"
 		c.extra["replay_of"] = os.Args[3]
-		os.Setenv("VERIF_REPLAY", os.Args[3])
+		// a replay file that carries the single failing case in the form the harness can re-run is replayed alone; the
+		// others (cases of the deterministic sweeps and families, dead harnesses, broken obligations) are replayed by
+		// running the quick tier again, which contains those sweeps
+		need := map[string]string{"C03": "text", "C08": "shape", "C09": "history", "C13": "tokens", "C14": "a", "C15": "chk", "C20": "request"}
+		single := true
+		if key, ok := need[os.Args[1]]; ok {
+			single = false
+			if data, err := os.ReadFile(os.Args[3]); err == nil {
+				var rep map[string]any
+				if json.Unmarshal(data, &rep) == nil {
+					switch v := rep[key].(type) {
+					case string:
+						single = v != ""
+					case nil:
+					default:
+						single = true
+					}
+				}
+			}
+		}
+		if single {
+			os.Setenv("VERIF_REPLAY", os.Args[3])
+		} else {
+			c.extra["replay_mode"] = "the quick tier was run again (the replay file names no single re-runnable case)"
+		}
 	}
 	f(c)
 	c.Finish()
